@@ -235,12 +235,13 @@ def wrap_verbose(func):
         elif ('verbose' in kwargs):
             logger.warning("Logger level '{0}' not recognised - level is unchanged".format(kwargs['verbose']))
 
-        # Call function itself
-        func_output = func(*args, **kwargs)
-
-        # current_level is None if the logger has not been set up - nothing to restore
-        if ('verbose' in kwargs) and (kwargs['verbose'] is not None) and (current_level is not None):
-            set_level(level=logging._levelToName[current_level])
+        # Call function itself, the previous level is restored even if it raises
+        try:
+            func_output = func(*args, **kwargs)
+        finally:
+            # current_level is None if the logger has not been set up - nothing to restore
+            if ('verbose' in kwargs) and (kwargs['verbose'] is not None) and (current_level is not None):
+                set_level(level=logging._levelToName[current_level])
 
         return func_output
     return inner_verbose
